@@ -99,6 +99,8 @@ core::marker::PhantomData
             old(candidates)@.len() > 0 && selected_items@.len() == 0 ==> candidates@ =~= old(candidates)@,
         ensures
             candidates@ =~= Set::<u32>::empty() || leafs.keys().len() >= min_items,
+        // C20 / C14 (bounded time): every pass that does not leave the loop takes one candidate away
+        decreases candidates@.len(),
 //@hint before <<<Ok((>>>
         proof {
             vstd::set_lib::lemma_set_disjoint_lens(selected_items@, candidates@);
